@@ -11,6 +11,7 @@ from sim.core import Rejected, SimLivelock, Violation
 from sim.disk import SimDisk
 
 ID = "C07"
+GUARD_KERNELS = True
 SHRINK_LISTS = ("ops", "faults")
 SHRINK_MIN = {"nchans": 1, "nbits": 1, "gulp": 1, "tfactor": 1, "ffactor": 1, "nsub": 1, "batch_size": 1, "chanpersub": 2, "nchans_b": 2}
 
@@ -258,6 +259,8 @@ def execute(sc, ctx) -> None:
                 outs = T.call(name, reader, ctx.root, params, gulp, start, nsamps)
             except SimLivelock as e:
                 raise Violation(f"C07/{name}/livelock/{eof}", str(e), info) from None
+            except Violation:
+                raise
             except Exception as e:  # noqa: BLE001
                 raised = e
             fault = sum(ctx.faults.values()) > fired0
